@@ -10,6 +10,8 @@ Correspondence (Corr/C06.v, Model/Errors.v), all numeric comparisons on SQUARED 
   * PARAFAC2: the model evaluates the slice-wise shortcut (both forms of B_i^T X_i) AND the residual from scratch from the returned
     (weights, (A, B, C), projections) -- they must coincide exactly -- and compares with (reported)^2; direct calls of
     _parafac2_reconstruction_error on random decompositions with slices of different heights;
+  * tensor ring: the model rebuilds the ring from the cores handed to the callback, evaluates the residual of the last least-squares
+    sub-problem (what the code reports) AND the residual from scratch -- they must coincide exactly -- and compares with (reported)^2;
   * HOOI: (reported)^2 against the model of the shortcut |norm^2 - norm(core)^2| (KHooi) and against the residual from scratch (KTucker);
   * convergence-stopped runs (tol > 0): the last reported value against the returned decomposition (break paths);
   * skeleton traces: number of reports / callbacks / block updates / break for chosen decision sequences.
@@ -77,6 +79,14 @@ def tucker_dense(G, fs):
     for k, f in enumerate(fs):
         out = np.moveaxis(np.tensordot(np.asarray(f, dtype=float), out, axes=(1, k)), 0, k)
     return out
+
+
+def tr_dense(cores):
+    """tensor ring -> dense, own arithmetic: entry = trace(G_0[:, i_0, :] ... G_{N-1}[:, i_{N-1}, :])"""
+    out = cores[0]                                    # (r0, n0, r1)
+    for G in cores[1:]:
+        out = np.tensordot(out, G, axes=([-1], [0]))  # (r0, n0, ..., nk, r_{k+1})
+    return np.trace(out, axis1=0, axis2=out.ndim - 1)
 
 
 def rel2(X, L, S=None, mask=None):
@@ -311,13 +321,13 @@ def run_tr_als(X, rank, k, seed, opts):
     stop_at = opts.get("_stop_at")
 
     def cb(dec, err):
-        rec.cb.append((dict(kind="dense", L=np.array(tl.tr_to_tensor([np.array(f) for f in dec]), dtype=float)), float(err)))
+        rec.cb.append((dict(kind="tr", cores=[np.array(f, dtype=float) for f in dec]), float(err)))
         return stop_at is not None and len(rec.cb) - 2 == stop_at
 
     rk = [rank] * (X.ndim + 1)
     out = tensor_ring_als(np.array(X), rk, n_iter_max=k, tol=0, random_state=seed, callback=cb,
                           ls_solve=opts.get("ls_solve", "lstsq"))
-    rec.final = dict(kind="dense", L=np.array(tl.tr_to_tensor(out), dtype=float))
+    rec.final = dict(kind="tr", cores=[np.array(f, dtype=float) for f in out])
     rec.errors = None
     return rec
 
@@ -380,6 +390,7 @@ def configs(tier):
         ("parafac_sparse", "tensorly.decomposition.parafac", run_parafac, dict(init="random", sparsity=0.15), G, [3], K),
         ("parafac_sparse_cb", "tensorly.decomposition.parafac", run_parafac, dict(init="random", sparsity=3, _cb=True), G, [3], K[-1:]),
         ("parafac_mask", "tensorly.decomposition.parafac", run_parafac, dict(init="random", _mask=True), G, [2, 3], K),
+        ("parafac_mask_sparse", "tensorly.decomposition.parafac", run_parafac, dict(init="random", _mask=True, sparsity=4, _cb=True), G, [3], K),
         ("parafac_mask_norm", "tensorly.decomposition.parafac", run_parafac, dict(init="random", _mask=True, normalize_factors=True, _cb=True), G, [3], K),
         ("parafac_fixed", "tensorly.decomposition.parafac", run_parafac, dict(_init="plain", fixed_modes=[0]), G, [3, 4], K),
         ("parafac_fixed_last", "tensorly.decomposition.parafac", run_parafac, dict(_init="plain", fixed_modes=[1, 2]), G, [3], K),
@@ -424,6 +435,7 @@ def configs(tier):
         ("tr_als", "tensorly.decomposition.tensor_ring_als", run_tr_als, dict(ls_solve="lstsq"), G, [3, 4], K[-1:]),
         ("tr_als_ne", "tensorly.decomposition.tensor_ring_als", run_tr_als, dict(ls_solve="normal_eq"), G, [3], K[-1:]),
         ("randomised", "tensorly.decomposition.randomised_parafac", run_randomised, dict(), G, [3, 4], K),
+        ("randomised_noisy", "tensorly.decomposition.randomised_parafac", run_randomised, dict(n_samples=6), G, [3], K + ([4, 5] if q else [])),
         ("randomised_cb", "tensorly.decomposition.randomised_parafac", run_randomised, dict(_cb=True), G, [3], K[-1:]),
         ("randomised_tol", "tensorly.decomposition.randomised_parafac", run_randomised, dict(_tol=1e-2), G, [3], KT),
         ("cmtf", "tensorly.decomposition._cmtf_als.coupled_matrix_tensor_3d_factorization", run_cmtf, dict(init="svd"), G, [3], K),
@@ -436,7 +448,8 @@ def configs(tier):
 NO_PREFIX = ("nn_tucker_hals", "parafac2_ls")   # (parafac2_ls_reject included by prefix)   # fista/active-set inner loops are capped by the OUTER n_iter_max; PARAFAC2's line search overwrites rec_errors[-1]
 LS_CONFIGS = ("parafac_ls", "parafac_ls_cb", "parafac_ls_norm", "parafac_ls_mask", "parafac_ls_sparse", "parafac2_ls", "parafac2_ls_norm")
 # shapes whose last two modes have the same size: a shortcut pairing the MTTKRP with the wrong factor then yields a wrong NUMBER instead of a shape error
-SHAPES_EQ = {2: [(4, 4)], 3: [(4, 3, 3), (3, 4, 4)], 4: [(2, 3, 3, 3)]}
+SHAPES_EQ = {2: [(4, 4)], 3: [(3, 3, 3)], 4: [(2, 2, 2, 2)]}
+SHAPES_EQ_T = {2: [(5, 5)], 3: [(4, 3, 3), (3, 4, 4)], 4: [(2, 3, 3, 3), (3, 2, 2, 2)]}
 
 
 def concretise(opts, X, rank, rs):
@@ -474,6 +487,9 @@ def iterate_case(X, it, rep):
         lit = lambda P: (f"(KParafac2 {P.ts(it['slices'])} {P.opt_w(it['w'])} {P.t(it['A'])} {P.t(it['B'])} {P.t(it['C'])} "
                          f"{P.ts(it['Ps'])} {P.num(rep)})")
         return lit, p2_rel2(it)
+    if it["kind"] == "tr":
+        lit = lambda P: f"(KTR {P.t(X)} {P.ts(it['cores'])} {P.num(rep)})"
+        return lit, rel2(X, tr_dense(it["cores"]))
     if it["kind"] == "dense":
         lit = lambda P: f"(KDense {P.t(X)} {P.t(it['L'])} {P.num(rep)})"
         return lit, rel2(X, it["L"])
@@ -561,9 +577,10 @@ def check_run(col, name, entry, X, kind, rank, k, seed, opts, rec, light=False):
             lit, mine = iterate_case(X, rec.final, rep)
             theirs = rep * rep
             ok = close(mine, theirs)
-        col.add(lit, dict(inputs=inputs, what="last reported value vs returned decomposition", entry=entry), expect_fail=not ok)
+        if not light:
+            col.add(lit, dict(inputs=inputs, what="last reported value vs returned decomposition", entry=entry), expect_fail=not ok)
         chk.count(key=(name, X.shape, kind, k), nontrivial=True)
-        if rec.final.get("hooi"):
+        if rec.final.get("hooi") and not light:
             # the model of HOOI's shortcut itself (|norm^2 - norm(core)^2| / norm^2) against the reported value
             G_ = rec.final["G"]
             col.add(lambda P, G_=G_, rep=rep: f"(KHooi {P.t(X)} {P.t(G_)} {P.num(rep)})",
@@ -578,8 +595,9 @@ def check_run(col, name, entry, X, kind, rank, k, seed, opts, rec, light=False):
         if e is None:
             continue
         lit, mine = iterate_case(X, it, e)
-        col.add(lit, dict(inputs=inputs, what=f"callback #{j} value vs the decomposition handed to the callback", entry=entry),
-                expect_fail=not close(mine, e * e))
+        if not light:
+            col.add(lit, dict(inputs=inputs, what=f"callback #{j} value vs the decomposition handed to the callback", entry=entry),
+                    expect_fail=not close(mine, e * e))
         chk.count(key=(name, X.shape, kind, k, "cb", j), nontrivial=True)
         if not close(mine, e * e):
             chk.finding(entry, dict(inputs, callback_index=j), f"{name}: callback #{j} received error {e!r} (squared {e*e!r}) but the decomposition "
@@ -638,6 +656,12 @@ def error_calc_cases(col, tier, rng):
                 L = cp_dense(w, fs)
                 Xp = X if msk is None else X * msk + L * (1 - msk)
                 S = None if not sparsity else np.array(sparsify_tensor(Xp - L, sparsity), dtype=float)
+                if S is not None:
+                    # the model of sparsify_tensor itself (exact): same residual in, same tensor out
+                    Rz = Xp - L
+                    col.add(lambda P, Rz=Rz, card=sparsity, S=S: f"(KSparsify {P.t(Rz)} {C.nat(card)} {P.t(S)})",
+                            dict(inputs={"tensor": Rz, "card": sparsity}, what="sparsify_tensor", entry="tensorly.decomposition._cp.sparsify_tensor"))
+                    chk.count(key=("sparsify", shape, sparsity, integer, msk is not None))
                 rep = float(out[0]) / float(out[2])
                 col.add(lambda P, X=X, R=R, w=w, fs=fs, S=S, msk=msk, rep=rep: f"(KCP {P.t(X)} {C.nat(R)} {P.opt_w(w)} {P.ts(fs)} {P.opt_t(S)} {P.opt_t(msk)} {P.num(rep)})",
                         dict(inputs=dict(inputs, sparsity=sparsity, mask=msk, branch="explicit"), what="error_calc", entry="tensorly.decomposition._cp.error_calc"))
@@ -753,7 +777,7 @@ def gen_runs(tier, rng):
         for order in orders:
             shp = shapes[order]
             if "fixed_last" in name or name in ("nn_parafac_fixed", "constrained_fixed"):
-                shp = SHAPES_EQ[order] + (shp if tier != "quick" else [])
+                shp = SHAPES_EQ[order] + ((SHAPES_EQ_T[order] + shp) if tier != "quick" else [])
             if tier == "quick":
                 # one shape per (config, order), data kind rotating with the seed
                 picks = [(shp[rng.randrange(len(shp))], kinds[rng.randrange(len(kinds))])]
@@ -763,7 +787,7 @@ def gen_runs(tier, rng):
                 # several seeds: accepted AND rejected jumps at the last iteration are both wanted (decisions are data dependent);
                 # run() stops drawing further seeds for a configuration once both have been seen
                 if tier == "quick":
-                    picks = picks + [(shp[rng.randrange(len(shp))], kinds[j % len(kinds)]) for j in range(11)]
+                    picks = picks + [(shp[rng.randrange(len(shp))], kinds[j % len(kinds)]) for j in range(39 if name.startswith("parafac_") else 9)]
                 else:
                     picks = picks * 3
             for shape, kind in picks:
@@ -834,7 +858,14 @@ def clf_cmtf_converged(f):
             and f["predicate"] == "C06_last_report_is_error_of_returned")
 
 
-CLASSIFIERS = {"parafac2_rejected_jump_last": clf_parafac2_rejected_jump_last, "hooi_masked": clf_hooi_masked,
+def clf_parafac_cb0_mask_sparse(f):
+    inp = f.get("inputs") or {}
+    o = inp.get("options") or {}
+    return (_cfg(f).startswith("parafac") and not _cfg(f).startswith("parafac2") and o.get("mask") is not None and bool(o.get("sparsity"))
+            and inp.get("callback_index") == 0 and f["predicate"] == "C06_callback_value_is_error_of_its_iterate")
+
+
+CLASSIFIERS = {"parafac_cb0_mask_sparse": clf_parafac_cb0_mask_sparse, "parafac2_rejected_jump_last": clf_parafac2_rejected_jump_last, "hooi_masked": clf_hooi_masked,
                "cmtf_converged": clf_cmtf_converged}
 
 
@@ -866,13 +897,18 @@ def run(chk):
     nruns = 0
     ls_seen = {}
     for (name, entry, runner, opts, kind, shape, rank, seed, ks) in gen_runs(chk.tier, rng):
+        light = False
         if name in LS_CONFIGS and chk.tier == "quick":
+            # the first pick runs the configured prefixes; further seeds (Python predicates only, no Coq case unless the jump of the
+            # last iteration was rejected) are drawn until three rejected-at-the-last-iteration runs have been seen: a rejected jump
+            # is where a stale error would surface, and it only shows while ALS still makes progress
             seen = ls_seen.setdefault(name, {"n": 0, "acc": 0, "rej": 0})
-            if seen["n"] >= 2 and seen["acc"] and seen["rej"]:
+            if seen["n"] >= 1 and seen["rej"] >= 3:
                 continue
             seen["n"] += 1
             if seen["n"] > 1:
-                ks = ks[:1]          # the extra seeds only run the shortest line-search prefix
+                ks = [(7, 9, 13)[seen["n"] % 3]]
+                light = True
         rs = np.random.RandomState(seed)
         X = make_tensor(kind, shape, rank, rs)
         if not np.any(X):
@@ -892,7 +928,7 @@ def run(chk):
                 chk.hist("skipped", f"{name}: {str(rec)[:60]}")
                 continue
             recs[k] = rec
-            nf = check_run(col, name, entry, X, kind, rank, k, seed, o, rec)
+            nf = check_run(col, name, entry, X, kind, rank, k, seed, o, rec, light=light and not (rec.ls and rec.ls[-1] is False))
             if "_tol" in o:
                 chk.hist("stopped_by_convergence", f"{name}: {len(series(rec)) < k}")
             if name in LS_CONFIGS and (k - 1) > 5 and (k - 1) % 2 == 0 and rec.ls:
@@ -930,8 +966,7 @@ def run(chk):
                        "0/1 masks; real data (complex conjugation in error_calc is outside the model)",
                        "prefix runs: convergence tests neutralised (tol=0 where errors are still produced, 1e-300 where tol gates the error computation); "
                        "the break paths are covered by the skeleton theorems, the callback-driven stops and the convergence-stopped runs (tol > 0)"]
-    chk.trusted = ["tensor-ring reconstructions are taken from the implementation's tr_to_tensor (C03 covers it); the model does the norm arithmetic",
-                   "sparse components are the implementation's (returned, or sparsify_tensor on the imputed residual in the direct error_calc cases)",
+    chk.trusted = [                   "sparse components are the implementation's (returned, or sparsify_tensor on the imputed residual in the direct error_calc cases)",
                    "line-search decisions are read from the verbose output of parafac / parafac2 (used for coverage histograms and the classifier of the PARAFAC2 finding only)",
                    "Q / dyadic execution of the model stands for the ring-regime model on rational inputs; KCPfast and KParafac2 re-check shortcut == residual exactly on each instance"]
     return chk.finish(CLASSIFIERS)
